@@ -9,7 +9,7 @@ MODULES = ["hta.trace_analysis"]
 MUST_NOT_RAISE = True
 BUDGET_S = {"quick": 420, "thorough": 3000}
 BOUNDS = {
-    "quick": "1 rank x 1..3 device activities (all class multisets over computation/communication/memory), plus "
+    "quick": "1 rank x 1..3 device activities (all class multisets over computation/communication/memory/other (a sync event on a stream)), plus "
              "2 ranks x 1..2 activities; ts,dur symbolic Int in [0,2^52), dur >= 0 (zero length allowed)",
     "thorough": "1 rank x 1..4 activities (all class multisets), 2 ranks x <=2 activities each (all pairs)",
 }
@@ -29,7 +29,9 @@ def skeletons(tier):
     out = []
     maxn = 3 if tier == "quick" else 4
     for n in range(1, maxn + 1):
-        for w in multisets("CNM", n):
+        for w in multisets("CNMY", n):
+            if tier == "quick" and n == 3 and w.count("Y") > 1:
+                continue
             out.append({"id": f"r1-{w}", "ranks": {"0": w}})
     pairs = [("C", "N"), ("CN", "M"), ("CC", "CM")] if tier == "quick" else [
         (a, b) for a in ["C", "N", "CN", "CC", "CM"] for b in ["C", "M", "CN", "NM"]]
